@@ -54,6 +54,22 @@ theorem type_iff_template (testnet : Bool) (s : Bytes) :
     ((evalBtc testnet s).pattern = .multisig ↔ isBareMultisig s = true) :=
   pattern_iff testnet s
 
+/-- **bare m-of-n multisig.**  `OP_m <key>{n} OP_n OP_CHECKMULTISIG` with 1 ≤ m ≤ n ≤ 16 — every key any well-formed push
+    (any length, any push form) — passes the bare-multisig test, hence (by `type_iff_template`) is typed Pay2MultiSig;
+    conversely a script that passes it starts with OP_1..OP_16, ends with OP_1..OP_16 OP_CHECKMULTISIG and has at most 19
+    instructions (the full converse — the middle is exactly n pushes — is checked by the correspondence's m-of-n grid) -/
+theorem multisig_template (m n : Nat) (keys : List (T.Form × Bytes)) (hm : 1 ≤ m) (hmn : m ≤ n) (hn : n ≤ 16)
+    (hk : keys.length = n) (hwf : ∀ p ∈ keys, (T.Tok.push p.1 p.2).WF) :
+    isBareMultisig ([UInt8.ofNat (0x50 + m)] ++ keys.flatMap (fun p => (T.Tok.push p.1 p.2).enc) ++
+      [UInt8.ofNat (0x50 + n), 0xae]) = true ∧
+    (∀ s, isBareMultisig s = true →
+      (∃ m rest, s = m :: rest ∧ 0x51 ≤ m.toNat ∧ m.toNat ≤ 0x60) ∧ 3 ≤ s.length ∧
+      0x51 ≤ (get s (s.length - 2)).toNat ∧ (get s (s.length - 2)).toNat ≤ 0x60 ∧ ((instrs s).take 20).length ≤ 19) :=
+  ⟨bare_multisig_template m n keys hm hmn hn hk hwf, bare_multisig_ends⟩
+
+/-- non-vacuity: 1-of-1 with a 33-byte key -/
+example : (T.Tok.push .direct (List.replicate 33 2)).WF := by simp [T.Tok.WF]
+
 /-- the templates exclude one another (stated for the two that share a first byte: a witness program is never a multisig) -/
 theorem witness_never_multisig (s : Bytes) (v : Nat) (h : witnessVersion s = some v) : isMultisigLib s = false :=
   witness_not_multisig s v h
